@@ -13,7 +13,8 @@ Import ListNotations.
    point), it is in the preparing state, and -- unless manually triggered --
    every one of its prerequisite expressions is true over outputs that were
    actually completed earlier in the run (each satisfied atom corresponds to
-   an earlier EOutput event of the upstream instance) or are pre-initial. *)
+   an earlier EOutput event of the upstream instance), are pre-initial, or
+   were force-satisfied by a command (cylc set --pre / trigger). *)
 Theorem c01_submit_only_when_satisfied : forall c tr1 tr2 t sn sf,
   exec c (init_state c) (tr1 ++ ESubmit t sn :: tr2) = Some sf ->
   exists s1 p i,
@@ -21,7 +22,8 @@ Theorem c01_submit_only_when_satisfied : forall c tr1 tr2 t sn sf,
     find_task (pool s1) t = Some p /\ find_inst (c_insts c) t = Some i /\
     valid_id c t /\ p_status p = Preparing /\
     (p_manual p = true \/
-     forall e, In e (i_pre i) -> bx_holds (fun k => In (EOutput (fst k) (snd k)) tr1) e).
+     forall e, In e (i_pre i) ->
+       bx_holds (fun k => emitted tr1 k \/ In k (p_forced p)) e).
 Proof. exact submit_only_when_satisfied. Qed.
 
 (* Every pooled instance is a graph instance within the cycle bounds. *)
